@@ -77,6 +77,27 @@ def run(tier, seed):
             if base is not None and base[0] != ans:
                 v.violation(f"{op}({rep['path']!r}) answers differently when ignore files exist in the PARENT of the root: {ans} vs {base[0]}",
                             dict(rep, with_outer_ignore=ans, without=base[0]), key="D17-ignore-files-of-root-parents-consulted")
+    # ---- a rewind that fails half-way rolls back: with the process's working directory outside the root (holding files of the same
+    #      names) the roll-back, like every other step, must not touch anything there (checkpoint engine of ./check C14, judged here
+    #      only on what happens outside the root)
+    from . import c14
+    fr = c14.failing_rewinds()
+    extra = []
+    for c in fr:
+        # the same with files that exist (changed) when the rewind starts: the roll-back writes their bytes back
+        c2 = {"fs0": dict(c["fs0"]), "steps": [c["steps"][0], {"o": {"k": "write", "p": "g" if c["steps"][1]["o"]["p"] != "g" else "f", "v": "v3"}}] + c["steps"][1:]}
+        extra.append(c2)
+    fcases = [{"id": f"failrw-{i}", "fs0": c["fs0"], "steps": [{"o": st["o"]} for st in c["steps"]], "cwd": "elsewhere", "mode": "direct"} for i, c in enumerate(fr + extra)]
+    for res in run_harness("ckpt", fcases, wd, "failrw", shards=4, timeout=900):
+        total += 1
+        c = next(x for x in fcases if x["id"] == res["id"])
+        v.add_eval({"failing_rewind": c["steps"]}, True)
+        for k, ob in enumerate(res["obs"]):
+            if ob.get("outside_changed"):
+                v.violation(f"step {k} ({c['steps'][k]['o']}) of a history with a rewind that fails half-way changed files outside the root (process working directory outside "
+                            f"the workspace): {ob['outside_changed']}; ops {[st['o'] for st in c['steps']]}", {"engine": "ckpt", "case": c, "step": k, "observed": ob})
+                break
+    v.cov["failing_rewind_histories_outside_cwd"] = len(fcases)
     v.cov["traces_validated_against_impl"] = total
     v.assumptions += ["'nothing outside is read' is observed through canary contents and active ignore files, not proved",
                       "symbolic links that already exist inside the workspace are workspace state, not path arguments (out of scope)"]
@@ -91,6 +112,14 @@ def replay(path, seed):
         rep = json.load(f)
     case = rep["case"]
     wd = workdir(PROP + "-replay")
+    if case.get("engine") == "ckpt":
+        res = run_harness("ckpt", [case["case"]], wd, "replay")[0]
+        bad = [ob["outside_changed"] for ob in res["obs"] if ob.get("outside_changed")]
+        print(json.dumps({"outside_changed": bad}))
+        if bad:
+            print(f"VIOLATION property={PROP} replay={path}")
+            return 1
+        return 0
     res = run_harness("pathguard", [case["case"]], wd, "replay")[0]
     print(json.dumps(res, indent=1)[:2500])
     bad = res["outside_changed"] or res["leak_output"] or res["leak_store"] or (res["rewind"] and res["rewind"].get("outside_changed")) or \
